@@ -23,7 +23,7 @@ namespace etl {
     return etl::detail::strpbrk_impl<char const, etl::size_t>(dest, breakset);
 }
 
-[[nodiscard]] constexpr auto strpbrk(char* dest, char* breakset) noexcept -> char*
+[[nodiscard]] constexpr auto strpbrk(char* dest, char const* breakset) noexcept -> char*
 {
     return etl::detail::strpbrk_impl<char, etl::size_t>(dest, breakset);
 }
